@@ -565,8 +565,183 @@ fn break_even_leg(rep: &mut Report, judge: Judge) {
     rep.agg.merge(a);
 }
 
+// ---------------------------------------------------------------- sources beyond 4 GiB (virtual)
+
+const VCHUNK: u64 = 16 << 20;
+
+/// Byte `o` of the virtual source: zero, except for an 8-byte tag at the start of a few chunks
+/// (one early, those just below / at / above source offset 2^32) and in the final partial chunk.
+fn vbyte_patch(buf: &mut [u8], start: u64, total: u64) {
+    buf.fill(0);
+    let marks: [u64; 6] = [5, 255, 256, 257, 258, total / VCHUNK];
+    for m in marks {
+        let tag = (m + 1).to_le_bytes();
+        for (k, t) in tag.iter().enumerate() {
+            let o = m * VCHUNK + 3 + k as u64;
+            if o >= start && o < start + buf.len() as u64 && o < total {
+                buf[(o - start) as usize] = *t;
+            }
+        }
+    }
+}
+
+struct VSource {
+    pos: u64,
+    total: u64,
+}
+
+impl tokio::io::AsyncRead for VSource {
+    fn poll_read(mut self: std::pin::Pin<&mut Self>, _cx: &mut std::task::Context<'_>, buf: &mut tokio::io::ReadBuf<'_>) -> std::task::Poll<std::io::Result<()>> {
+        let n = (buf.remaining() as u64).min(self.total - self.pos) as usize;
+        let (pos, total) = (self.pos, self.total);
+        let dst = buf.initialize_unfilled_to(n);
+        vbyte_patch(dst, pos, total);
+        buf.advance(n);
+        self.pos += n as u64;
+        std::task::Poll::Ready(Ok(()))
+    }
+}
+
+/// Output that stores nothing: every write is compared with the virtual source at its offset and
+/// counted per 16 MiB slot.
+struct VSink {
+    pos: u64,
+    total: u64,
+    st: std::sync::Arc<std::sync::Mutex<VSinkState>>,
+}
+
+#[derive(Default)]
+struct VSinkState {
+    slots: Vec<u64>,
+    wrong: Vec<(u64, usize)>,
+    beyond: Vec<(u64, usize)>,
+}
+
+impl tokio::io::AsyncWrite for VSink {
+    fn poll_write(mut self: std::pin::Pin<&mut Self>, _cx: &mut std::task::Context<'_>, data: &[u8]) -> std::task::Poll<std::io::Result<usize>> {
+        let mut want = vec![0u8; data.len()];
+        vbyte_patch(&mut want, self.pos, self.total);
+        {
+            let mut st = self.st.lock().unwrap();
+            if self.pos + data.len() as u64 > self.total {
+                st.beyond.push((self.pos, data.len()));
+            } else if want != data {
+                st.wrong.push((self.pos, data.len()));
+            } else {
+                let slot = (self.pos / VCHUNK) as usize;
+                if st.slots.len() <= slot {
+                    st.slots.resize(slot + 1, 0);
+                }
+                st.slots[slot] += data.len() as u64;
+            }
+        }
+        self.pos += data.len() as u64;
+        std::task::Poll::Ready(Ok(data.len()))
+    }
+    fn poll_flush(self: std::pin::Pin<&mut Self>, _cx: &mut std::task::Context<'_>) -> std::task::Poll<std::io::Result<()>> {
+        std::task::Poll::Ready(Ok(()))
+    }
+    fn poll_shutdown(self: std::pin::Pin<&mut Self>, _cx: &mut std::task::Context<'_>) -> std::task::Poll<std::io::Result<()>> {
+        std::task::Poll::Ready(Ok(()))
+    }
+}
+
+impl tokio::io::AsyncSeek for VSink {
+    fn start_seek(mut self: std::pin::Pin<&mut Self>, position: std::io::SeekFrom) -> std::io::Result<()> {
+        match position {
+            std::io::SeekFrom::Start(o) => self.pos = o,
+            std::io::SeekFrom::Current(d) => self.pos = (self.pos as i64 + d) as u64,
+            std::io::SeekFrom::End(d) => self.pos = (self.total as i64 + d) as u64,
+        }
+        Ok(())
+    }
+    fn poll_complete(self: std::pin::Pin<&mut Self>, _cx: &mut std::task::Context<'_>) -> std::task::Poll<std::io::Result<u64>> {
+        std::task::Poll::Ready(Ok(self.pos))
+    }
+}
+
+/// The real library writer over a virtual source of 4 GiB + 48 MiB + 12 345 bytes (fixed 16 MiB
+/// chunks, no compression), then the real reader / clone output into a comparing sink: source
+/// offsets, the recorded size and the rebuild order beyond 2^32.
+fn big_virtual_leg(rep: &mut Report) {
+    use futures_util::StreamExt;
+    let total: u64 = (4u64 << 30) + 3 * VCHUNK + 12_345;
+    let mut agg = Agg::default();
+    let rt = tokio::runtime::Builder::new_multi_thread().worker_threads(2).enable_all().build().unwrap();
+    let detail = |extra: Value| json!({"leg": "virtual source beyond 4 GiB", "source_len": total, "chunk": VCHUNK, "extra": extra});
+    let opts = bitar::api::compress::CreateArchiveOptions {
+        chunker_config: bitar::chunker::Config::FixedSize(VCHUNK as usize),
+        num_chunk_buffers: 8,
+        chunk_hash_length: 64,
+        temporary_file_override: None,
+        compression: None,
+        metadata: BTreeMap::new(),
+    };
+    let r = catch(|| {
+        rt.block_on(async {
+            let mut out: Vec<u8> = vec![];
+            bitar::api::compress::create_archive(VSource { pos: 0, total }, &mut out, &opts).await.map_err(|e| format!("{e}"))?;
+            Ok::<Vec<u8>, String>(out)
+        })
+    });
+    agg.add("big_virtual_sources", 1);
+    let bytes = match r {
+        Err(p) => {
+            agg.viol(&format!("panic@{}", panic_site(&p)), || detail(json!(p)));
+            rep.agg.merge(agg);
+            return;
+        }
+        Ok(Err(e)) => {
+            agg.viol("valid-compress-failed", || detail(json!(e)));
+            rep.agg.merge(agg);
+            return;
+        }
+        Ok(Ok(b)) => b,
+    };
+    let st = std::sync::Arc::new(std::sync::Mutex::new(VSinkState::default()));
+    let st2 = st.clone();
+    let r = catch(|| {
+        rt.block_on(async {
+            let reader = bitar::archive_reader::IoReader::new(std::io::Cursor::new(bytes));
+            let mut archive = bitar::Archive::try_init(reader).await.map_err(|e| format!("try_init: {e}"))?;
+            if archive.total_source_size() != total {
+                return Err(format!("recorded source size {} != {}", archive.total_source_size(), total));
+            }
+            let mut output = bitar::CloneOutput::new(VSink { pos: 0, total, st: st2 }, archive.build_source_index());
+            let mut stream = archive.chunk_stream(output.chunks());
+            while let Some(r) = stream.next().await {
+                let v = r.map_err(|e| format!("read: {e}"))?.decompress().map_err(|e| format!("decompress: {e}"))?.verify().map_err(|e| format!("verify: {e}"))?;
+                output.feed(&v).await.map_err(|e| format!("feed: {e}"))?;
+            }
+            Ok::<(), String>(())
+        })
+    });
+    match r {
+        Err(p) => agg.viol(&format!("panic@{}", panic_site(&p)), || detail(json!(p))),
+        Ok(Err(e)) if e.starts_with("recorded source size") => agg.viol("recorded-source-size-wrong", || detail(json!(e))),
+        Ok(Err(e)) => agg.viol("valid-clone-failed", || detail(json!(e))),
+        Ok(Ok(())) => {
+            let st = st.lock().unwrap();
+            let nslots = ((total + VCHUNK - 1) / VCHUNK) as usize;
+            let ok = st.wrong.is_empty()
+                && st.beyond.is_empty()
+                && st.slots.len() == nslots
+                && st.slots.iter().enumerate().all(|(i, &n)| n == if i + 1 == nslots { total - i as u64 * VCHUNK } else { VCHUNK });
+            if !ok {
+                agg.viol("success-with-wrong-output", || {
+                    detail(json!({"writes_with_wrong_bytes": st.wrong.iter().take(5).collect::<Vec<_>>(), "writes_beyond_source": st.beyond.iter().take(5).collect::<Vec<_>>(),
+                        "slots_filled": st.slots.iter().filter(|&&n| n > 0).count(), "slots_expected": nslots}))
+                });
+            }
+        }
+    }
+    rep.agg.merge(agg);
+}
+
 pub fn c01(rep: &mut Report) {
     let t0 = std::time::Instant::now();
+    big_virtual_leg(rep);
+    rep.agg.notes.push(format!("virtual 4 GiB source wall {:.1}s", t0.elapsed().as_secs_f64()));
     sweep(rep, Judge::RoundTrip);
     rep.agg.notes.push(format!("sweep wall {:.1}s", t0.elapsed().as_secs_f64()));
     let results = run_sched_legs(rep, Judge::RoundTrip, &|_| true);
@@ -574,7 +749,7 @@ pub fn c01(rep: &mut Report) {
     let ev = rep.agg.get("library_roundtrips") + rep.agg.get("cli_roundtrips") + rep.agg.get("schedules");
     rep.set("evaluations", json!(ev));
     rep.set("distinct_nontrivial", json!(rep.agg.distinct_count("archives") + rep.agg.distinct_count("schedule_outcomes")));
-    rep.set("rule", json!("leg a: all strings over {00,'a','b'} up to the length bound + boundary family (lengths around window/min/max, constant/periodic/varied contents, one 70 kB source per 16 configurations) x pairwise-style configuration grid (3 algorithms, windows 1-16, min/max shapes, bits, hash lengths 4/8/31/64, none/brotli/zstd/lzma, buffered-chunks 1/2/8) through the library writer and (where expressible) the real CLI compress+clone on files; judged by the independent decoder and the round trip; leg b: deviation-bounded schedule exploration of the real compress_cmd / create_archive / clone_cmd; non-trivial = distinct archives + distinct schedule outcomes"));
+    rep.set("rule", json!("leg a: all strings over {00,'a','b'} up to the length bound + boundary family (lengths around window/min/max, constant/periodic/varied contents, one 70 kB source per 16 configurations) x pairwise-style configuration grid (3 algorithms, windows 1-16, min/max shapes, bits, hash lengths 4/8/31/64, none/brotli/zstd/lzma, buffered-chunks 1/2/8) through the library writer and (where expressible) the real CLI compress+clone on files; judged by the independent decoder and the round trip; one virtual source of 4 GiB + 48 MiB + 12345 bytes (tags below / at / above offset 2^32) through the real library writer and the real clone output into a comparing sink; leg b: deviation-bounded schedule exploration of the real compress_cmd / create_archive / clone_cmd; non-trivial = distinct archives + distinct schedule outcomes"));
     finish_sched(rep);
 }
 
